@@ -270,7 +270,7 @@ def judge(traces: list[dict[str, Any]], rep: Any = None, grace: int = 3) -> dict
         path = os.path.join(scratch, 'traces.json')
         with open(path, 'w') as f:
             json.dump([{'id': t['id'], 'conf': t['conf'], 'events': t['events']} for t in traces], f)
-        cfg = ('SPECIFICATION TSpec\nCONSTANTS\n  Ops = {"a", "b", "c"}\n  Ext_ = {"x", "y"}\n  NoConf = NoConf\n  QMax = 200\n  TrackVer = TRUE\n'
+        cfg = ('SPECIFICATION TSpec\nCONSTANTS\n  Ops = {"a", "b", "c"}\n  Ext_ = {"x", "y"}\n  NoConf = NoConf\n  QMax = 100000\n  TrackVer = TRUE\n'
                f'  Grace = {grace}\nCONSTRAINT Book\nPOSTCONDITION Verdicts\nCHECK_DEADLOCK FALSE\n')
         r = tlc.run('Trace_Peering', cfg_text=cfg, workers=1, env={'TRACE_FILE': path}, timeout=3000, deque=True)
     finally:
